@@ -146,6 +146,12 @@ def run(tier, seed, replay=None):
             {"kind": "empty", "src": "", "args": [], "mode": "e"},
             {"kind": "empty", "src": "", "args": [], "mode": "file"},
             {"kind": "empty", "src": "", "args": ["a.ank"], "mode": "e"},
+            # deep but finite recursion: what the library runs to the end the command runs to the end
+            {"kind": "ok", "src": 'func f(n) { if n == 0 { return 0 }; return 1 + f(n - 1) }\nprintln("start")\nprintln(f(40000))', "args": ["t"], "mode": "file"},
+            {"kind": "ok", "src": 'func f(n) { if n == 0 { return 0 }; return 1 + f(n - 1) }; println("start"); println(f(40000))', "args": [], "mode": "e"},
+            {"kind": "ok", "src": 'func f(a, b, c, d, e) { if a == 0 { return 0 }; return 1 + f(a - 1, b, c, d, e) }; println(f(15000, 1, 2, 3, 4))', "args": [], "mode": "e"},
+            {"kind": "ok", "src": 'x = 0\nfor i = 0; i < 300000; i++ { x += i }\nprintln(x)', "args": [], "mode": "file"},
+            {"kind": "ok", "src": 'a = []\nfor i = 0; i < 200000; i++ { a += i }\nprintln(len(a))', "args": [], "mode": "file"},
             {"kind": "flags", "src": 'println(args)', "args": ["-x"], "mode": "file"},
             {"kind": "flags", "src": 'println(args)', "args": ["a"], "mode": "e", "mid": ["--"]},
         ]
